@@ -100,8 +100,15 @@ def shrink_tok(mode, ns, bits=TBITS):
     return "t" if mode == "t" else "logt " + t_table(ns, bits)
 
 
-def close(real, exact, tol=RTOL):
-    """real: float, exact: mp number (may be -inf)"""
+def ulps(off, k=4):
+    """k units in the last place of |off| (0 for off = 0): what adding `off` in float64 may cost"""
+    return 0.0 if off == 0 else k * float(np.spacing(abs(float(off))))
+
+
+def close(real, exact, tol=RTOL, off=0.0):
+    """real: float result obtained with every log-likelihood shifted by `off`; exact: mp value for the UNSHIFTED
+    problem (may be -inf).  Demands |(real - off) - exact| <= tol*max(1, |exact|) + 4 ulp(|off|): the shift must be
+    reproduced to a few ulps of the offset, the rest to relative 1e-9 of the unshifted value."""
     real = float(real)
     if math.isnan(real):
         return False
@@ -109,7 +116,7 @@ def close(real, exact, tol=RTOL):
         return real == -math.inf
     if math.isinf(real):
         return False
-    return abs(M().mpf(real) - exact) <= tol * max(1.0, abs(float(exact)))
+    return abs(M().mpf(real) - M().mpf(off) - exact) <= tol * max(1.0, abs(float(exact))) + ulps(off)
 
 
 def close_f(a, b, scale=1.0):
@@ -337,9 +344,9 @@ def oracle(ctx, case, real, ref, fail=None):
         if anypos:
             if not math.isfinite(real["logZ"]):
                 fail("_NSIntegralState.finalise:nonfinite", f"log-evidence {real['logZ']} is not finite")
-            elif not close(real["logZ"], shifted(ref["logZ"])):
+            elif not close(real["logZ"], ref["logZ"], off=off):
                 fail("_NSIntegralState.finalise:logZ", f"final logZ={real['logZ']!r}, quadrature {float(shifted(ref['logZ']))!r}")
-            if not close(real["logZ_rect"], shifted(ref["logZ_rect"])):
+            if not close(real["logZ_rect"], ref["logZ_rect"], off=off):
                 fail("_NSIntegralState.increment:logZ", f"incremental (rectangle) logZ={real['logZ_rect']!r}, one-pass "
                      f"rectangle sum {float(shifted(ref['logZ_rect']))!r}")
             w = real["logw"]
@@ -359,7 +366,7 @@ def oracle(ctx, case, real, ref, fail=None):
     if real["cw"] == "ok" and anypos:
         if not math.isfinite(real["cw_logZ"]):
             fail("compute_weights:nonfinite", f"log-evidence {real['cw_logZ']} is not finite")
-        elif not close(real["cw_logZ"], shifted(ref["logZ"])):
+        elif not close(real["cw_logZ"], ref["logZ"], off=off):
             fail("compute_weights:logZ", f"one-pass logZ={real['cw_logZ']!r}, quadrature {float(shifted(ref['logZ']))!r}")
         w = real["cw_logw"]
         if len(w) != N:
@@ -388,13 +395,23 @@ def oracle_shift(ctx, case, real, fail=None):
     if off == 0.0 or not any(a > 0 for a, _ in case["L"]):
         return
     base = run_real(case, offset=0.0)
+    u = ulps(off)
     for zk, wk, name in [("logZ", "logw", "_NSIntegralState"), ("cw_logZ", "cw_logw", "compute_weights")]:
         if zk not in real or zk not in base:
             continue
-        if not close_f(real[zk] - off, base[zk], scale=abs(off)):
-            fail(f"shift:{name}:logZ", f"adding {off} to every logL moved logZ from {base[zk]!r} to {real[zk]!r}")
-        if len(real[wk]) == len(base[wk]) and any(not close_f(a, b) for a, b in zip(real[wk], base[wk])):
-            fail(f"shift:{name}:weights", f"adding {off} to every logL changed the posterior weights")
+        # (log-evidence of the shifted run) - offset must equal the unshifted log-evidence to a few ulps of the
+        # offset plus 1e-9 relative to the unshifted value (difference taken in mpmath: no rounding of its own)
+        d = float(abs(M().mpf(real[zk]) - M().mpf(off) - M().mpf(base[zk])))
+        if not (math.isfinite(real[zk]) and math.isfinite(base[zk]) and d <= u + RTOL * max(1.0, abs(base[zk]))):
+            fail(f"shift:{name}:logZ", f"adding {off} to every logL moved logZ from {base[zk]!r} to {real[zk]!r} "
+                 f"(shift error {d:.3e}, allowed {u + RTOL * max(1.0, abs(base[zk])):.3e})")
+        if len(real[wk]) == len(base[wk]):
+            for i, (a, b) in enumerate(zip(map(float, real[wk]), map(float, base[wk]))):
+                same_inf = math.isinf(a) and a == b
+                if not same_inf and not (math.isfinite(a) and math.isfinite(b)
+                                         and abs(a - b) <= 2 * u + RTOL * max(1.0, abs(b))):
+                    fail(f"shift:{name}:weights", f"adding {off} to every logL changed log_post_w[{i}] from {b!r} to {a!r}")
+                    break
 
 
 # ----------------------------------------------------------------------------- Lean model
@@ -437,7 +454,7 @@ def compare_model(ctx, case, real, ref, outs):
         x = log_tok(tok)
         if refv is not None and not (x == refv or abs(x - refv) <= mtol * max(1.0, abs(float(refv)))):
             bad.append(f"{name}: Lean Rat model {float(x)!r} != mpmath reference {float(refv)!r}")
-        if realv is not None and not close(realv, x + shift):
+        if realv is not None and not close(realv, x, off=shift):
             bad.append(f"{name}: implementation {float(realv)!r} != exact model {float(x + shift)!r}")
 
     if st["status"] != "ok" or real["state"] != "ok":
@@ -735,12 +752,16 @@ def correspond(ctx):
                                    offset=rng.choice([0.0, 1.0e5]), track=False, ns=[1] * N, use_default=[True] * N,
                                    arr_dtype="int", style="const")))
         cases.append(("deep", dict(kind="sampler", mode=mode, family="ties", n=1, L=[[3, -2]] * N, offset=0.0, track=False)))
-        # steeply rising likelihoods at deep volumes: the LATE terms (volumes below exp(-745)) carry the evidence, so an
-        # implementation that lets the interval widths leave log space gets logZ wrong by hundreds of nats (seeded change C02-b)
-        for off in (0.0, 1.0e3):
-            cases.append(("deep", dict(kind="sampler", mode=mode, family="steep", n=1, L=[[1, 2 * i] for i in range(N)],
-                                       offset=off, track=False)))
-    cases.append(("deep", dict(kind="sampler", mode="logt", family="steep", n=2, L=[[1, i] for i in range(1800)],
+    # steeply rising likelihoods at deep volumes: the LATE terms (volumes below exp(-745)) carry the evidence, so an
+    # implementation that lets the interval widths leave log space gets logZ wrong by hundreds of nats (seeded change
+    # C02-b).  't' mode with n = 1, 2 keeps the exact model cheap (t = 1/2, 2/3: small denominators); one 'logt' case
+    # with a 64-bit table.
+    for off in (0.0, 1.0e3):
+        cases.append(("deep", dict(kind="sampler", mode="t", family="steep", n=1, L=[[1, 2 * i] for i in range(1100)],
+                                   offset=off, track=False)))
+    cases.append(("deep", dict(kind="sampler", mode="logt", family="steep", n=1, L=[[1, 2 * i] for i in range(800)],
+                               offset=0.0, track=False, tbits=64)))
+    cases.append(("deep", dict(kind="sampler", mode="t", family="steep", n=2, L=[[1, i] for i in range(1900)],
                                offset=0.0, track=False)))
     if not ctx.quick:
         for mode, top in (("t", 5000), ("t", 5000), ("t", 3000), ("logt", 2000), ("logt", 1500), ("logt", 1000)):   # long runs
